@@ -75,6 +75,10 @@ CLAIMED = {
           "The reference evaluator (chains as infallible pipes, nil short-circuit between steps, blocks/branches/condition-consequence, every pattern form, tuples/spreads/field access, functions, closures, tail calls, strings with holes, std modules from their source, builtins by the C12 models) is validated each run against ~890 harvested programs pinned by the repository's tests. Stream A applies 1-3 token edits to the harvested programs it covers; stream B generates integer programs nesting literal/tuple/union switches, patterns that bind and then fail, sequences with bindings, closures, failing mid-sequence matches, inner blocks failing as a whole, ripple chains, shadowing, spreads, early-nil sequence steps. Exploration only.",
           "Processes, select, I/O, function equality, context-inferred closure parameters and tests against type variables are outside the evaluator (discarded, counted). Five recorded compiler defects are attributed by the semantic situation the reference run met (a partial-typed parameter with another layout, a branch that binds and ends in literal nil, a block that is nil by exhaustion with a last consequence, a variable bound to nil / nil reaching a later branch, a star pattern or tail call before a VM failure); their generator shapes are kept at a low rate and each is re-witnessed every run.",
           "DESIGN.md §4 C02"),
+  "C01": ("mutated harvested programs + proptest-generated control-flow and narrowing programs; oracle: classification of the run-time outcome (no VM-level type failure) + structural membership of the result in the result type the compiler inferred",
+          "Every accepted program of three streams is run: 1-3 token edits of harvested programs (those without generics, std imports or recursive aliases), the C02 control-flow generator, and narrowing programs over generated types (`g = #'t { | =('s)y => Y[y] | =x => N[x] }` in four forms applied to literal values of 't). The outcome must be a value inhabiting the inferred result type (checked structurally over the compiled program's own types), a value-domain error, or divergence — never a VM type failure. Exploration only.",
+          "Programs that need an environment are not run. Membership in callable/process types is by kind; dangling back references and type variables accept anything. The compiler has many recorded soundness holes (nil narrowing, recursive and partial types in narrowing, the infallible-pipe chain semantics, partial-typed parameters, generic functions, tail calls — see known_findings.json); an unsound outcome is attributed to one of them by the types involved or by the semantic situation the reference evaluator meets, and only unattributed outcomes are violations.",
+          "DESIGN.md §4 C01"),
   # id: (technique, level text, level note, design_ref)
   "C18": ("proptest-generated inputs + corpus mutation (prefix/token delete/dup/subst/transpose/wide-char) + bracket nests to depth 100; oracle: no panic, located error, deterministic production budget",
           "Generated-input search over front-end inputs: every run parses ~10^5 generated/mutated texts and compiles the accepted ones, checking no panic, error position inside the input on a char boundary with consistent line/column, and a polynomial production budget via hook H5. Exploration only: absence is not established.",
